@@ -7,6 +7,11 @@ _NOTE = ("Trusted: Coq 8.16.1 kernel + vm_compute; the Go harness (generators, p
          "differential evaluation on generated inputs, not by proof; ")
 
 TEXT = {
+    "C10": {
+        "level": "Function.Call / returnTypeForValues are modelled with callbacks as arbitrary Gallina functions (succeed, fail, panic) and an explicit callback trace. Theorems for ALL specifications and ALL argument lists: the implementation runs only after the type callback accepted the same arguments and only with arguments meeting the declared contract (conformance, null, unknown, dynamic, marks at any depth); the only possible traces; an argument error names an offending argument; otherwise the call short-circuits to the marked unknown of the checked type; no Go panic escapes Call. Generated specs with spy callbacks are run on the implementation and traces compared with the model.",
+        "note": _NOTE + "Go defer/recover ordering is modelled as coded (after two fix: commits).",
+        "technique": "Coq proof over a Gallina model of the call protocol (universally quantified callbacks, trace invariants) + spy-trace correspondence by vm_compute",
+    },
     "C01": {
         "level": "The approximation order 'admits' is a Gallina function. Theorems for all operands and all weakenings: big.Float comparison is the order of exact values (total preorder, trichotomy, mixed transitivity); LessThan, GreaterThan, Not, And, Or on weakened operands always succeed and their result admits the concrete result. Range arithmetic across precisions and the text-vs-value gap of Equals are refuted by kernel-computed witnesses replayed on every run (known findings). For all 20 operations every generated (concrete, weakened) pair is run on model and implementation, compared bit-for-bit, and the soundness property is evaluated on both sides.",
         "note": _NOTE + "soundness theorems cover comparison and logic; the remaining operations are decided per generated pair by the model-side property (vm_compute) and the oracle (partial).",
